@@ -209,6 +209,14 @@ func genCsvRoundTrip(r *Rng) *Enc {
 		}
 		df.Columns[names[perm[j]]] = &dataframe.Column[any]{Name: names[perm[j]], Data: d}
 	}
+	if ncols >= 2 && n >= 2 && r.Chance(8) {
+		// the last row(s) hold the empty text in EVERY column: still rows
+		for k := r.Range(1, 2); k > 0; k-- {
+			for _, c := range df.Columns {
+				c.Data[n-k] = ""
+			}
+		}
+	}
 	if ncols == 1 && r.Chance(15) {
 		// a single column whose name contains a tab (or looks like another delimiter-separated header)
 		for k, c := range df.Columns {
